@@ -62,7 +62,7 @@ CHECKS["C03"] = {
         VM(2500, 30000, kinds=["vmcode"]),
         {"name": "engine", "quick_n": 1500, "thorough_n": 20000, "model_is_oracle": True, "oracles": ["api-panic", "process-crash"]},
     ],
-    "explanation": "Compiler-correctness simulation over the model: for every well-annotated tree whose reference evaluation is not stuck (C01/C02), running the compiled code on the model machine equals the reference evaluator — same value or failure and the same log of host calls and prints (C03.vm_correct, vm_same_events); the compiler refuses well-annotated trees only for an encoding overflow (refuse_overflow). The reference evaluator is tied to the closure compiler and the AST interpreter, the model compiler and machine to vm.Compile and both dispatch loops by the eval and vm streams (bytes, constant pool, outcome, event order), and the oracle compares the four back ends pairwise on every accepted program. END TO END (third session; Proofs/VmChecked*): vm_correct_checked / runVm_correct_checked - for every program the checker accepts, in every conforming environment that holds no LAZY function value (NoLazyFunValues, decidable; preserved by evaluation: noLazy_preserved), the machine run with the fuel runVm really passes returns exactly what the reference evaluator returns (value or failure, and the same log of host calls and prints): the three hypotheses of the simulation theorem (WellAnnotated, KindsAgree, NotStuck) are now DERIVED from check, type soundness (C01) and progress (C02); checked_needs_noLazy is the kernel-checked witness that the extra hypothesis is necessary (finding D20: h.f(1) with a lazy function value in a field). refuse_exact: compile refuses exactly when a count exceeds the encoding capacity (65 535 constants / members / jump target, 255 arguments), characterised by an exact size abstraction; compiles_small: no program of at most 4095 nodes is refused; overflows_long_list: a checked list literal of more than 65 535 members is refused (by lemma, not evaluation); run_fuel_mono. Over the engine object: EngineVm (Model/EngineVm.lean) is the engine whose vm back end really compiles to bytecode at Compile and runs the machine at every invocation; for EVERY history of API calls its outputs equal those of the evaluator-based engine step by step, except that a program the bytecode compiler refuses (exactly: a size overflows, refusal_exact) is a compile error there and later invocations of it find no Callable (EngineVmProps.engineVm_refines, engines_agree, engineVm_refines_small, api_sound_vm; hypothesis: no lazy function VALUE in a run-time environment, the D20 condition). The engine stream is answered by EngineVm.run; its thorough tier includes a history in which the vm compiler refuses a 66 000-member literal that the closure compiler accepts.",
+    "explanation": "Compiler-correctness simulation over the model: for every well-annotated tree whose reference evaluation is not stuck (C01/C02), running the compiled code on the model machine equals the reference evaluator — same value or failure and the same log of host calls and prints (C03.vm_correct, vm_same_events); the compiler refuses well-annotated trees only for an encoding overflow (refuse_overflow). The reference evaluator is tied to the closure compiler and the AST interpreter, the model compiler and machine to vm.Compile and both dispatch loops by the eval and vm streams (bytes, constant pool, outcome, event order), and the oracle compares the four back ends pairwise on every accepted program. END TO END (third session; Proofs/VmChecked*): vm_correct_checked / runVm_correct_checked - for every program the checker accepts, in every conforming environment that holds no LAZY function value (NoLazyFunValues, decidable; preserved by evaluation: noLazy_preserved), the machine run with the fuel runVm really passes returns exactly what the reference evaluator returns (value or failure, and the same log of host calls and prints): the three hypotheses of the simulation theorem (WellAnnotated, KindsAgree, NotStuck) are now DERIVED from check, type soundness (C01) and progress (C02); checked_needs_noLazy is the kernel-checked witness that the extra hypothesis is necessary (finding D20: h.f(1) with a lazy function value in a field). refuse_exact: compile refuses exactly when a count exceeds the encoding capacity (65 535 constants / members / jump target, 255 arguments), characterised by an exact size abstraction; compiles_small: no program of at most 4095 nodes is refused; overflows_long_list: a checked list literal of more than 65 535 members is refused (by lemma, not evaluation); run_fuel_mono. Over the engine object: EngineVm (Model/EngineVm.lean) is the engine whose vm back end really compiles to bytecode at Compile and runs the machine at every invocation; for EVERY history of API calls its outputs equal those of the evaluator-based engine step by step, except that a program the bytecode compiler refuses (exactly: a size overflows, refusal_exact) is a compile error there and later invocations of it find no Callable (EngineVmProps.engineVm_refines, engines_agree, engineVm_refines_small, api_sound_vm; hypothesis: no lazy function VALUE in a run-time environment, the D20 condition). The engine stream is answered by EngineVm.run; it includes a history in which the vm compiler refuses a call with 256 arguments (the count does not fit 8 bits) that the closure compiler accepts on the same engine.",
     "assumptions": ["the call-threaded loop is generated from the switch loop by the repository's own generator; it is tied behaviourally, not modelled separately", "vmFuel e <= the fuel runVm passes is not proved (the machine is additionally shown to need at most the code size by C11)"],
 }
 
